@@ -1153,7 +1153,8 @@ def _split_tensordict(
             "Either chunksize or num_chunks must be provided, but not both."
         )
     if num_chunks is not None:
-        num_chunks = min(td.shape[dim], num_chunks)
+        # at most one chunk per element, but still one (empty) chunk along an empty dimension
+        num_chunks = min(max(td.shape[dim], 1), num_chunks)
         if use_generator:
 
             def next_index(td=td, dim=dim, num_chunks=num_chunks):
